@@ -180,6 +180,12 @@ func (ex *Exec) simpKnown(t *Term) *Term {
 	}
 	if len(ex.plainVars) > 0 {
 		switch t.Op {
+		case "=":
+			if t.Args[0].Sort == SStr {
+				if r := ex.splitPlainEq(t.Args[0], t.Args[1]); r != nil {
+					return ex.simpKnown(r)
+				}
+			}
 		case "str.contains":
 			if t.Args[1].Op == "cs" && ex.cannotContain(t.Args[0], t.Args[1].S) {
 				return tFalse
@@ -671,4 +677,54 @@ func (ex *Exec) trimmedEnds(t *Term, cut string, left, right bool) bool {
 		return false
 	}
 	return true
+}
+
+// letterPrefix splits atoms at the first character that is no lower-case letter: everything before it is made of plain
+// variables and letters. found=false with ok=true means the whole term consists of letters.
+func (ex *Exec) letterPrefix(atoms []*Term) (prefix []*Term, delim byte, rest []*Term, found, ok bool) {
+	for i, a := range atoms {
+		switch {
+		case a.Op == "var" && ex.plainVars[a]:
+			prefix = append(prefix, a)
+		case a.Op == "cs":
+			k := -1
+			for j := 0; j < len(a.S); j++ {
+				if a.S[j] < 'a' || a.S[j] > 'z' {
+					k = j
+					break
+				}
+			}
+			if k < 0 {
+				prefix = append(prefix, a)
+				continue
+			}
+			prefix = append(prefix, mkStr(a.S[:k]))
+			rest = append([]*Term{mkStr(a.S[k+1:])}, atoms[i+1:]...)
+			return prefix, a.S[k], rest, true, true
+		default:
+			return nil, 0, nil, false, false
+		}
+	}
+	return prefix, 0, nil, false, true
+}
+
+// splitPlainEq rewrites an equation between concatenations of plain variables and constants by cutting both sides at
+// their first non-letter character, which must be at the same position: P1 d R1 = P2 d' R2  <=>  P1 = P2, d = d', R1 = R2.
+// nil = no progress.
+func (ex *Exec) splitPlainEq(a, b *Term) *Term {
+	pa, da, ra, fa, oka := ex.letterPrefix(catAtoms(a))
+	pb, db, rb, fb, okb := ex.letterPrefix(catAtoms(b))
+	if !oka || !okb {
+		return nil
+	}
+	switch {
+	case fa && fb:
+		if da != db {
+			return tFalse
+		}
+		return mkAnd(mkEq(mkConcat(pa...), mkConcat(pb...)), mkEq(mkConcat(ra...), mkConcat(rb...)))
+	case fa != fb:
+		return tFalse // one side has a non-letter character, the other consists of letters
+	}
+	return nil
 }
